@@ -7,7 +7,11 @@ use crate::rng::Rng;
 use crate::run::{Obs, Prop, RunCfg, Verdict, Worker};
 
 fn gen(r: &mut Rng, _cfg: &RunCfg) -> Case {
-    let text = gen_text(r, TextDomain::Clean);
+    let mut text = gen_text(r, TextDomain::Clean);
+    if r.chance(1, 20) {
+        let l = crate::gen::text::hyphen_link(r);
+        crate::gen::text::inject_word(r, &mut text, &l);
+    }
     let dw = crate::oracle::width::ref_width(&text);
     let mut o = OptSpec::new(opts::small_width(r, text.len(), dw));
     o.bw = r.coin();
@@ -56,7 +60,7 @@ pub fn check(case: &Case, obs: &mut Obs) -> Verdict {
     if o.sep == Sep::Unicode && forced {
         return Verdict::Skipped("Unicode separator with a word that needs force-breaking (excluded by the statement)");
     }
-    let once = textwrap::fill(text, o.build());
+    let once = o.fill(text);
     obs.calls += 1;
     if matches!(o.algo, Algo::Optimal(_)) {
         let over = once.split(o.le()).any(|l| textwrap::core::display_width(l) > o.width);
@@ -64,7 +68,7 @@ pub fn check(case: &Case, obs: &mut Obs) -> Verdict {
             return Verdict::Skipped("optimal-fit result has an over-wide line (excluded by the statement)");
         }
     }
-    let twice = textwrap::fill(&once, o.build());
+    let twice = o.fill(&once);
     obs.calls += 1;
     if obs.want_sample {
         obs.out = Some(crate::json::J::s(&crate::case::preview(&once, 200)));
@@ -92,7 +96,13 @@ pub fn check(case: &Case, obs: &mut Obs) -> Verdict {
 /// KF-2: the hyphen splitter cuts inside an escape sequence containing a hyphen.
 pub fn known(case: &Case, _msg: &str) -> Option<&'static str> {
     let o = case.o(0);
-    if o.split == Split::Hyphen && crate::oracle::words::hyphen_point_inside_sequence(case.t(0)) {
+    // KF-2 reaches C14 through the Unicode separator only: after the first fill has cut a sequence at an
+    // in-sequence hyphen, the tail of the sequence starts a line and the second pass, which no longer sees it
+    // as part of a sequence, finds break opportunities in it that the first pass did not. With the ASCII
+    // separator words end at spaces in both passes and every piece is measured stand-alone in both passes,
+    // so fill stays idempotent there (0 of 4.2*10^7 generated cases on the pinned code); a violation with
+    // the ASCII separator is therefore not this finding.
+    if o.split == Split::Hyphen && o.sep == crate::case::Sep::Unicode && crate::oracle::words::hyphen_point_inside_sequence(case.t(0)) {
         // attributable to the hyphen splitter: the same case holds without it
         let mut c2 = case.clone();
         c2.opts[0].split = Split::None;
